@@ -14,7 +14,7 @@ from sim.runner import add_violation, new_result
 PROP = "C14"
 LEVEL = "exploration"
 TIERS = {
-    "quick": {"seeds": 400000, "chunk": 2000, "wall_s": 300, "shrink_s": 30},
+    "quick": {"seeds": 420000, "chunk": 2000, "wall_s": 300, "shrink_s": 30},
     "thorough": {"seeds": 12000000, "chunk": 10000, "wall_s": 3000, "shrink_s": 120},
 }
 RULE = ("one seed -> one scenario: 1-4 DT8 gear models (short addresses, groups, stale DTR contents, stored colour values) "
@@ -42,7 +42,10 @@ def gen_plan(seed, tier="quick"):
     for s in shorts:
         units.append({"short": s, "groups": r.getrandbits(16), "dtr": [r.randrange(256) for _ in range(3)],
                       "values": {}})
-    tc = (seed // 6) % 65536 if r.random() < 0.6 else r.choice(EDGES + [r.getrandbits(16)])
+    if seed % 6 == 0 and seed % 97:
+        tc = (seed // 6) % 65536          # the quick tier walks through every mirek value
+    else:
+        tc = (seed // 6) % 65536 if r.random() < 0.4 else r.choice(EDGES + [r.getrandbits(16)])
     plan = {"engine": "busim", "property": PROP, "seed": seed, "kind": kind, "units": units,
             "dest": r.choice(["short", "short", "int", "group", "broadcast"]), "tc": tc, "fault": None}
     if plan["dest"] == "group":
